@@ -25,7 +25,7 @@ pub fn describe(prop: &str) -> (&'static str, String, Value) {
         _ => json!({
             "real_code": ["shred builder / stage packing / dispatcher / batch / async dispatcher / par_seq / world (unmodified working tree, compiled through the shadow manifest for engine S, directly for engine R and the no-parallel build)", "atomic_refcell", "ahash (keys supplied by the simulator through its random-source seam)", "arrayvec", "smallvec", "std::sync::mpsc (async dispatcher: real channel, reached through the detach protocol)", "engine R phase: the real rayon pool"],
             "stubbed": ["engine S: rayon -> simrayon (worker-slot model on detsim; DESIGN.md 2.2)"],
-            "simulator": ["detsim scheduler: OS threads + baton, seeded strategies (random, low-switch, PCT, round-robin, max-overlap, hold), choice trace, shrinking", "engine R: detsim::ext - real threads parked at scheduler points, controller decides at /proc-observed quiescence"],
+            "simulator": ["detsim scheduler: OS threads + baton, seeded strategies (random, low-switch, PCT, round-robin, max-overlap, hold), choice trace, shrinking", "engine R: detsim::ext - real threads parked at scheduler points, controller decides at /proc-observed quiescence", "detsim monitor: a baton holder that blocks in the kernel without announcing it is detached after 100 ms asleep (counted as implicit detaches; 0 on a tree whose only blocking calls are the announced ones)", "thorough tier of C01, C04, C07, C12, C14, C15: the same generated plans on plain threads (stand-in pool in pass-through mode) under Miri's seeded scheduler, 16 processes with one Miri seed each; Miri's data-race detector and aliasing model are additional oracles"],
         }),
     };
     let rule = match fam {
